@@ -79,11 +79,11 @@ def spec_program(p):
              "ty": "0", "nh2": o.get("nh2", "none"), "h2": "none"}
         if o["op"] == "spawn":
             c = cfg_of(o["entry"], o.get("items", 0), o.get("ended", False))
-            s["cfg"] = dict({"cap": -1, "strat": "restart", "stream": False, "tmo": 0, "failto": False, "owning": False, "sscr": [], "pscr": [],
+            s["cfg"] = dict({"cap": -1, "strat": "restart", "stream": False, "tmo": -1, "failto": False, "owning": False, "sscr": [], "pscr": [],
                              "fscr": [], "ty": "0", "items0": 0, "ended0": False, "iscr": []}, **c)
         elif o["op"] in ("spawn_svc", "spawn_pre"):
             s["op"] = "spawn"
-            s["cfg"] = {"cap": -1, "strat": "restart", "stream": False, "tmo": 0, "failto": False, "owning": False, "sscr": [], "pscr": [],
+            s["cfg"] = {"cap": -1, "strat": "restart", "stream": False, "tmo": -1, "failto": False, "owning": False, "sscr": [], "pscr": [],
                         "fscr": [], "ty": "1", "items0": 0, "ended0": False, "iscr": []}
         elif o["op"] == "register_builder":
             s["op"] = "register"
